@@ -316,7 +316,7 @@ func c13prop(ev *evid.Rec, forceWrap bool) func(rt *rapid.T) {
 				name := genName("name")
 				lo := hlsim.LoginOpts{Login: c.login, Password: "pw"}
 				if flow == "123" {
-					lo.Name, lo.Icon = name, rapid.IntRange(0, 3000).Draw(s.rt, "icon")
+					lo.Name, lo.Icon, lo.Icon4 = name, rapid.IntRange(0, 3000).Draw(s.rt, "icon"), rapid.Bool().Draw(s.rt, "icon4")
 				} else {
 					lo.Version = hlref.BE16(190)
 				}
@@ -378,7 +378,7 @@ func c13prop(ev *evid.Rec, forceWrap bool) func(rt *rapid.T) {
 					}
 					rec("agree %d options=%d", c.idx, opts)
 					icon := rapid.IntRange(0, 3000).Draw(rt, "icon")
-					if !okReply(c.conn.Agreed(name, icon, opts, auto)) {
+					if !okReply(c.conn.AgreedWide(name, icon, opts, auto, rapid.Bool().Draw(rt, "icon4"))) {
 						s.fail("agreed refused")
 					}
 					c.completed = true
